@@ -143,3 +143,27 @@ Section Destructor.
       rewrite D. reflexivity.
   Qed.
 End Destructor.
+
+(** * is_convertible *)
+Section Conversion.
+  Variable call_ok : cty -> cty -> bool.
+  (* a function cannot be called with an argument when its parameter type is void: the type void(void)
+     formed from a dependent void is invalid, and a function without parameters takes no argument *)
+  Hypothesis call_void : forall from to, std_is_void to = true -> call_ok from to = false.
+
+  Theorem is_convertible_m_spec : forall from to, wf from = true -> wf to = true ->
+    is_convertible_m call_ok from to = std_is_convertible call_ok from to.
+  Proof.
+    intros from to Hf Ht; unfold is_convertible_m, std_is_convertible, is_convertible_q, std_is_convertible_q.
+    rewrite !is_void_m_spec by assumption.
+    assert (R : returnable_m to = negb (std_is_array to || std_is_function to)).
+    { unfold returnable_m. rewrite <- is_array_m_spec, <- is_function_m_spec by exact Ht.
+      rewrite is_function_m_fn by exact Ht.
+      destruct to; try reflexivity; destruct n; reflexivity. }
+    rewrite R.
+    destruct (std_is_void to) eqn:Vt.
+    - destruct (std_is_void from); cbn [andb]; [reflexivity|].
+      destruct (negb _); cbn [eval_cres]; [apply call_void; exact Vt | reflexivity].
+    - rewrite andb_false_r. destruct (std_is_array to || std_is_function to)%bool; reflexivity.
+  Qed.
+End Conversion.
